@@ -288,4 +288,633 @@ Proof.
   - destruct (P7 _ (or_introl H)) as (Rg & N & _). rewrite E in N. exact (N (All _ Rg)).
   - destruct (O7 _ (or_introl H)) as (_ & _ & Ow). rewrite E in Ow. exact (d b Hb Ow).
 Qed.
+
+(* ---------- steps that change the maps ---------- *)
+Lemma assemble q hq w1 xf :
+  G w1 -> Pl w1 xf hq -> Pl w1 (getp w1 (negb q)) None ->
+  (forall b, In b (own xf) -> In b (own (getp w1 (negb q))) -> False) -> Jq q hq (setp w1 q xf).
+Proof.
+  intros g P O d. pose proof (setp_same_maps w1 q xf) as SM.
+  unfold Jq. rewrite getp_setp_eq. rewrite getp_setp_neq by (destruct q; discriminate).
+  split; [exact (G_same_maps _ _ SM g)|]. split; [exact (Pl_same_maps _ _ _ _ SM P)|].
+  split; [exact (Pl_same_maps _ _ _ _ SM O)|exact d].
+Qed.
+
+Lemma getp_set_bytes w b f c p : getp (set_bytes w b f c) p = getp w p.
+Proof. destruct p; reflexivity. Qed.
+Lemma getp_set_nx w b j v p : getp (set_nx w b j v) p = getp w p.
+Proof. destruct p; reflexivity. Qed.
+
+(* replacing the two lists of a pool record by another split of the SAME buffer sequence *)
+Definition relist (x : cpool) (lf lr : list Z) : cpool := mkCP lf lr (cache x) (acount x) (live x).
+
+Lemma Pl_relist w w1 x hx hx' lf lr :
+  Pl w x hx -> lf ++ lr = own x ->
+  fresh w1 = fresh w -> returned w1 = returned w ->
+  (forall b, In b lr -> 1 <= fc w1 b) -> (forall b, In b lf -> fc w1 b = 0) -> (lr = [] -> lf = []) ->
+  (forall bk, In bk (lb x) \/ hx' = Some bk -> okblk w1 x bk) ->
+  (forall bk, hx' = Some bk -> ~ In bk (lb x)) ->
+  Pl w1 (relist x lf lr) hx'.
+Proof.
+  intros (P1 & P2 & P3 & P4 & P5 & P6 & P7 & P8 & P9) E F R A1 A2 A3 A4 A5.
+  unfold Pl, relist, own, lb, okblk in *. cbn [lfull lfree cache acount live]. rewrite E, F, R.
+  split; [exact P1|]. split; [exact P2|]. split; [exact A1|]. split; [exact A2|]. split; [exact A3|].
+  split; [exact P6|]. split; [|split; [exact A5|exact P9]].
+  intros bk H. destruct (A4 bk H) as (a1 & a2 & a3). split; [exact a1|]. split; [exact a2|]. unfold own in *. cbn [lfull lfree]. rewrite E. exact a3.
+Qed.
+
+(* pvNewBlock 531-537 *)
+Lemma take_J q w head rest :
+  Jq q None w -> lfree (getp w q) = head :: rest -> (fc w head = 1 -> rest <> []) ->
+  snd (take w q) = (head, fb w head) /\ Jq q (Some (head, fb w head)) (fst (take w q)).
+Proof.
+  intros ((g1 & g2 & g3) & P & O & d) E Hr. pose proof P as (P1 & P2 & P3 & P4 & P5 & P6 & P7 & P8 & P9).
+  unfold take. rewrite E. cbn [hd0 tl0]. cbv zeta. cbn [fst snd]. split; [reflexivity|].
+  set (x := getp w q) in *. set (idx := fb w head). set (bC := fc w head - 1).
+  set (w1 := set_bytes w head (nx w head idx) bC).
+  assert (In head (lfree x)) as Hh by (rewrite E; left; reflexivity).
+  assert (In head (own x)) as Ho by (unfold own; apply in_or_app; auto).
+  pose proof (P3 head Hh) as F1.
+  destruct (PoolConcProofs.chain_take w head F1) as (CT1 & CT2). fold idx bC w1 in CT1, CT2.
+  assert (getp w1 q = x) as Gx by (unfold w1; apply getp_set_bytes).
+  assert (getp w1 (negb q) = getp w (negb q)) as Go by (unfold w1; apply getp_set_bytes).
+  assert (forall b, fc w1 b = if b =? head then bC else fc w b) as FC.
+  { intros b. unfold w1. simpl. unfold upd. reflexivity. }
+  destruct (g1 head) as (_ & NDh & Rh). rewrite CT1 in NDh, Rh. inversion NDh as [|? ? Nidx NDt]; subst.
+  assert (G w1) as Gw1.
+  { split; [|split; [exact g2|exact g3]]. intros b. rewrite FC. destruct (Z.eqb_spec b head) as [->|N].
+    - split; [unfold bC; lia|]. split; [exact NDt|]. intros y Hy. apply Rh. right. exact Hy.
+    - rewrite (CT2 b N). apply g1. }
+  assert (Pl w1 (getp w1 (negb q)) None) as Ow1.
+  { rewrite Go. apply Pl_frame with (w := w); [exact O| |simpl; lia|].
+    - intros b Hb. assert (b <> head) as N by (intro; subst; exact (d head Ho Hb)).
+      rewrite FC. destruct (Z.eqb_spec b head); [congruence|]. split; [reflexivity|apply CT2; exact N].
+    - intros b Hb. destruct O as (_ & O2 & _). apply (O2 b Hb). }
+  assert (forall bk, In bk (lb x) \/ Some (head, idx) = Some bk -> okblk w1 x bk) as OK.
+  { intros bk [H|H].
+    - destruct (P7 bk (or_introl H)) as (a1 & a2 & a3). split; [exact a1|]. split; [|exact a3].
+      destruct (Z.eq_dec (fst bk) head) as [Eh|Nh].
+      + rewrite Eh in *. intro Hc. apply a2. rewrite CT1. right. exact Hc.
+      + rewrite (CT2 _ Nh). exact a2.
+    - inversion H; subst. unfold okblk. cbn [fst snd]. split; [apply Rh; left; reflexivity|]. split; [exact Nidx|exact Ho]. }
+  assert (forall bk, Some (head, idx) = Some bk -> ~ In bk (lb x)) as NH.
+  { intros bk H Hin. inversion H; subst. destruct (P7 _ (or_introl Hin)) as (_ & a2 & _). cbn [fst snd] in a2.
+    apply a2. rewrite CT1. left. reflexivity. }
+  assert (NoDup (lfull x ++ head :: rest)) as NDo by (unfold own in P1; rewrite E in P1; exact P1).
+  apply NoDup_app_iff in NDo. destruct NDo as (NDf & NDr & Dfr). inversion NDr as [|? ? Nhr NDr']; subst.
+  destruct (Z.eqb_spec bC 0) as [Ez|Nz].
+  - (* the head has no free block left: it joins the full part *)
+    unfold set_lists. cbv zeta. rewrite Gx.
+    change (mkCP (lfull x ++ [head]) rest (cache x) (acount x) (live x)) with (relist x (lfull x ++ [head]) rest).
+    apply assemble; [exact Gw1| |exact Ow1|].
+    + apply Pl_relist with (w := w) (hx := None); [exact P| |reflexivity|reflexivity| | | |exact OK|exact NH].
+      * unfold own. rewrite E. rewrite <- app_assoc. reflexivity.
+      * intros b Hb. rewrite FC. destruct (Z.eqb_spec b head) as [->|N]; [contradiction|]. apply P3. rewrite E. right. exact Hb.
+      * intros b Hb. rewrite FC. apply in_app_or in Hb. destruct Hb as [Hb|[<-|[]]].
+        -- destruct (Z.eqb_spec b head) as [->|N]; [exfalso; apply (Dfr head Hb); left; reflexivity|]. apply P4. exact Hb.
+        -- rewrite Z.eqb_refl. exact Ez.
+      * intros Er. exfalso. apply Hr; [unfold bC in Ez; lia|exact Er].
+    + unfold relist, own. cbn [lfull lfree]. intros b Hb Hb'. rewrite Go in Hb'.
+      apply (d b); [|exact Hb']. unfold own. rewrite E. rewrite <- app_assoc in Hb. exact Hb.
+  - unfold Jq. split; [exact Gw1|]. split; [|split; [exact Ow1|]].
+    + rewrite Gx.
+      assert (x = relist x (lfull x) (lfree x)) as Ex by (destruct x; reflexivity). rewrite Ex.
+      apply Pl_relist with (w := w) (hx := None); [exact P|reflexivity|reflexivity|reflexivity| | |exact P5| |].
+      * intros b Hb. rewrite FC. destruct (Z.eqb_spec b head) as [->|N]; [unfold bC in *; lia|]. apply P3. exact Hb.
+      * intros b Hb. rewrite FC. destruct (Z.eqb_spec b head) as [->|N]; [exfalso; apply (Dfr head Hb); left; reflexivity|]. apply P4. exact Hb.
+      * exact OK.
+      * exact NH.
+    + rewrite Gx, Go. exact d.
+Qed.
+
+(* pvNewBuffer + linking the new buffer in as the last buffer of the list (521-522, 527-529) *)
+Lemma attach_new_J q w : Jq q None w -> Jq q None (attach_new C w q).
+Proof.
+  intros ((g1 & g2 & g3) & P & O & d). pose proof P as (P1 & P2 & P3 & P4 & P5 & P6 & P7 & P8 & P9).
+  unfold attach_new. destruct (new_buffer C w) as [w' nb] eqn:NB.
+  pose proof (PoolConcProofs.chain_new_buffer C w HC) as CN. rewrite NB in CN. cbn [fst snd] in CN.
+  destruct CN as (Enb & Ech & NDch & Efc & Oth).
+  assert (fresh w' = fresh w + 1 /\ returned w' = returned w /\ forall p, getp w' p = getp w p) as (Ef & Er & Gp).
+  { unfold new_buffer in NB. inversion NB; subst. simpl. split; [reflexivity|]. split; [reflexivity|]. intros []; reflexivity. }
+  unfold set_lists. cbv zeta. rewrite !Gp. set (x := getp w q) in *.
+  assert (forall p b, In b (own (getp w p)) -> b <> nb) as Nnb.
+  { intros p b Hb E. subst b. destruct (Bool.bool_dec p q) as [->|Np].
+    - destruct (P2 _ Hb) as (Hf & _). lia.
+    - destruct O as (_ & O2 & _). assert (p = negb q) as -> by (destruct p, q; try congruence; reflexivity).
+      destruct (O2 _ Hb) as (Hf & _). lia. }
+  assert (G w') as Gw'.
+  { split; [|split; [intros b Hb; rewrite Er in Hb; specialize (g2 b Hb); lia|lia]].
+    intros b. destruct (Z.eq_dec b nb) as [->|N].
+    - rewrite Efc. split; [lia|]. split; [exact NDch|]. intros y Hy. rewrite Ech in Hy. apply PoolConcProofs.upto_In in Hy. lia.
+    - destruct (Oth b N) as (E1 & E2). rewrite E1, E2. apply g1. }
+  change (mkCP (lfull x) (lfree x ++ [nb]) (cache x) (acount x) (live x)) with (relist x (lfull x) (lfree x ++ [nb])).
+  apply assemble; [exact Gw'| | |].
+  - unfold Pl, relist, own, lb, okblk in *. cbn [lfull lfree cache acount live]. rewrite Ef, Er.
+    assert (~ In nb (lfull x ++ lfree x)) as Nin by (intro H; exact (Nnb q nb H eq_refl)).
+    split; [|split; [|split; [|split; [|split; [|split; [exact P6|split; [|split; [exact P8|exact P9]]]]]]]].
+    + rewrite app_assoc. apply NoDup_app_iff. split; [exact P1|]. split; [repeat constructor; simpl; tauto|].
+      intros y H1 [<-|[]]. exact (Nin H1).
+    + intros b Hb. rewrite app_assoc in Hb. apply in_app_or in Hb. destruct Hb as [Hb|[<-|[]]].
+      * destruct (P2 b Hb). split; [lia|assumption].
+      * split; [lia|]. intro Hr. specialize (g2 _ Hr). lia.
+    + intros b Hb. apply in_app_or in Hb. destruct Hb as [Hb|[<-|[]]].
+      * assert (b <> nb) as N by (intro; subst; apply Nin; apply in_or_app; auto). rewrite (proj2 (Oth b N)). apply P3. exact Hb.
+      * rewrite Efc. lia.
+    + intros b Hb. assert (b <> nb) as N by (intro; subst; apply Nin; apply in_or_app; auto). rewrite (proj2 (Oth b N)). apply P4. exact Hb.
+    + intros E0. destruct (lfree x); discriminate.
+    + intros bk Hb. destruct (P7 bk Hb) as (a1 & a2 & a3). split; [exact a1|]. split.
+      * assert (fst bk <> nb) as N by (intro E0; apply Nin; rewrite <- E0; exact a3). rewrite (proj1 (Oth _ N)). exact a2.
+      * unfold own in *. cbn [lfull lfree]. rewrite app_assoc. apply in_or_app. left. exact a3.
+  - rewrite Gp. apply Pl_frame with (w := w); [exact O| |lia|].
+    + intros b Hb. pose proof (Nnb (negb q) b Hb) as N. destruct (Oth b N) as (E1 & E2). split; assumption.
+    + intros b Hb. rewrite Er. destruct O as (_ & O2 & _). apply (O2 b Hb).
+  - unfold relist, own. cbn [lfull lfree]. intros b Hb Hb'. rewrite Gp in Hb'. rewrite app_assoc in Hb. apply in_app_or in Hb.
+    destruct Hb as [Hb|[<-|[]]]; [exact (d b Hb Hb')|exact (Nnb (negb q) nb Hb' eq_refl)].
+Qed.
+
+Lemma attach_new_lfree q w : lfree (getp (attach_new C w q) q) = lfree (getp w q) ++ [fresh w].
+Proof. unfold attach_new, new_buffer, set_lists. cbv zeta. rewrite getp_setp_eq. destruct q; reflexivity. Qed.
+
+(* pvNewBlock 519-538: afterwards the returned block is the hole *)
+Lemma pvNewBlock_J q w : Jq q None w -> Jq q (Some (snd (pvNewBlock C w q))) (fst (pvNewBlock C w q)).
+Proof.
+  intros Jw. unfold pvNewBlock. cbv zeta.
+  set (w0 := match lfree (getp w q) with [] => attach_new C w q | _ :: _ => w end).
+  assert (Jq q None w0 /\ lfree (getp w0 q) <> []) as (J0 & N0).
+  { unfold w0. destruct (lfree (getp w q)) eqn:E.
+    - split; [apply attach_new_J; exact Jw|]. rewrite attach_new_lfree, E. discriminate.
+    - split; [exact Jw|]. rewrite E. discriminate. }
+  clearbody w0. destruct (lfree (getp w0 q)) as [|head rest0] eqn:E0; [congruence|]. cbn [hd0 tl0].
+  set (w1 := if (fc w0 head =? 1) && (hd0 rest0 =? 0) then attach_new C w0 q else w0).
+  assert (Jq q None w1 /\ exists rest1, lfree (getp w1 q) = head :: rest1 /\ (fc w1 head = 1 -> rest1 <> [])) as (J1 & rest1 & E1 & H1).
+  { unfold w1. destruct (Z.eqb_spec (fc w0 head) 1) as [F|F]; destruct (Z.eqb_spec (hd0 rest0) 0) as [Z0|Z0]; cbn [andb].
+    - split; [apply attach_new_J; exact J0|]. exists (rest0 ++ [fresh w0]). rewrite attach_new_lfree, E0. split; [reflexivity|].
+      intros _. destruct rest0; discriminate.
+    - split; [exact J0|]. exists rest0. split; [exact E0|]. intros _ E. rewrite E in Z0. apply Z0. reflexivity.
+    - split; [exact J0|]. exists rest0. split; [exact E0|]. intros F'. congruence.
+    - split; [exact J0|]. exists rest0. split; [exact E0|]. intros F'. congruence. }
+  clearbody w1. destruct (take_J q w1 head rest1 J1 E1 H1) as (Es & Jt). rewrite Es. exact Jt.
+Qed.
+
+(* replacing the two lists by another arrangement of the same set of buffers *)
+Lemma Pl_relist2 w w1 x hx hx' lf lr :
+  Pl w x hx -> NoDup (lf ++ lr) -> (forall y, In y (lf ++ lr) <-> In y (own x)) ->
+  fresh w1 = fresh w -> returned w1 = returned w ->
+  (forall b, In b lr -> 1 <= fc w1 b) -> (forall b, In b lf -> fc w1 b = 0) -> (lr = [] -> lf = []) ->
+  (forall bk, In bk (lb x) \/ hx' = Some bk -> okblk w1 x bk) ->
+  (forall bk, hx' = Some bk -> ~ In bk (lb x)) ->
+  Pl w1 (relist x lf lr) hx'.
+Proof.
+  intros (P1 & P2 & P3 & P4 & P5 & P6 & P7 & P8 & P9) ND Iff F R A1 A2 A3 A4 A5.
+  unfold Pl, relist. unfold own at 1 2. unfold lb at 1 2 3. cbn [lfull lfree cache acount live]. rewrite F, R.
+  split; [exact ND|]. split; [intros b Hb; apply P2; apply Iff; exact Hb|]. split; [exact A1|]. split; [exact A2|]. split; [exact A3|].
+  split; [exact P6|]. split; [|split; [exact A5|exact P9]].
+  intros bk H. destruct (A4 bk H) as (a1 & a2 & a3). split; [exact a1|]. split; [exact a2|].
+  unfold own at 1. cbn [lfull lfree]. apply Iff. exact a3.
+Qed.
+
+Lemma getp_push w bk p : getp (push w bk) p = getp w p.
+Proof. unfold push. rewrite getp_set_bytes, getp_set_nx. reflexivity. Qed.
+
+(* pvDeleteBlock 549-556: push the block in transit on its buffer's chain; a buffer that was full becomes the head *)
+Lemma pushmove_J q w bk :
+  Jq q (Some bk) w ->
+  Jq q None (if fc (push w bk) (fst bk) =? 1 then move_head (push w bk) q (fst bk) else push w bk).
+Proof.
+  intros ((g1 & g2 & g3) & P & O & d). pose proof P as (P1 & P2 & P3 & P4 & P5 & P6 & P7 & P8 & P9).
+  destruct bk as [b j]. cbn [fst]. set (x := getp w q) in *.
+  destruct (P7 (b, j) (or_intror eq_refl)) as (Rj & Nj & Ob). cbn [fst snd] in Rj, Nj, Ob.
+  pose proof (P8 (b, j) eq_refl) as Nlb.
+  destruct (g1 b) as (F0 & NDb & Rb).
+  destruct (PoolConcProofs.chain_push w b j F0 Nj) as (CP1 & CP2).
+  set (w1 := push w (b, j)). change (set_bytes (set_nx w b j (fb w b)) b j (fc w b + 1)) with w1 in CP1, CP2.
+  assert (forall p, getp w1 p = getp w p) as Gp by (intros p; apply getp_push).
+  assert (forall y, fc w1 y = if y =? b then fc w b + 1 else fc w y) as FC by (intros y; unfold w1, push; simpl; unfold upd; reflexivity).
+  assert (G w1) as Gw1.
+  { split; [|split; [exact g2|exact g3]]. intros y. rewrite FC. destruct (Z.eqb_spec y b) as [->|N].
+    - split; [lia|]. rewrite CP1. split; [constructor; assumption|]. intros z [<-|Hz]; [exact Rj|apply Rb; exact Hz].
+    - rewrite (CP2 y N). apply g1. }
+  assert (Pl w1 (getp w (negb q)) None) as Ow1.
+  { apply Pl_frame with (w := w); [exact O| |simpl; lia|].
+    - intros y Hy. assert (y <> b) as N by (intro; subst; exact (d b Ob Hy)).
+      rewrite FC. destruct (Z.eqb_spec y b); [congruence|]. split; [reflexivity|apply CP2; exact N].
+    - intros y Hy. destruct O as (_ & O2 & _). apply (O2 y Hy). }
+  assert (forall bk', In bk' (lb x) \/ None = Some bk' -> okblk w1 x bk') as OK.
+  { intros bk' [H|H]; [|discriminate]. destruct (P7 bk' (or_introl H)) as (a1 & a2 & a3). split; [exact a1|]. split; [|exact a3].
+    destruct (Z.eq_dec (fst bk') b) as [Eb|Nb].
+    - rewrite Eb, CP1. intros [Ej|Hc]; [|rewrite Eb in a2; exact (a2 Hc)].
+      apply Nlb. destruct bk' as [b' j']. cbn [fst snd] in *. subst. exact H.
+    - rewrite (CP2 _ Nb). exact a2. }
+  assert (forall bk', None = Some bk' -> ~ In bk' (lb x)) as NH by (intros; discriminate).
+  unfold own in P1. pose proof P1 as P1'. apply NoDup_app_iff in P1'. destruct P1' as (NDf & NDr & Dfr).
+  rewrite FC, Z.eqb_refl.
+  destruct (Z.eqb_spec (fc w b + 1) 1) as [E1|N1].
+  - (* the buffer was full: it becomes the head *)
+    assert (In b (lfull x)) as Hbf.
+    { unfold own in Ob. apply in_app_or in Ob. destruct Ob as [H|H]; [exact H|]. specialize (P3 b H). lia. }
+    unfold move_head, set_lists. cbv zeta. rewrite Gp. fold x.
+    change (mkCP (removez b (lfull x)) (b :: lfree x) (cache x) (acount x) (live x)) with (relist x (removez b (lfull x)) (b :: lfree x)).
+    apply assemble; [exact Gw1| |rewrite Gp; exact Ow1|].
+    + apply Pl_relist2 with (w := w) (hx := Some (b, j)); [exact P| | |reflexivity|reflexivity| | | |exact OK|exact NH].
+      * apply NoDup_app_iff. split; [apply removez_NoDup; exact NDf|]. split.
+        -- constructor; [intro H; exact (Dfr b Hbf H)|exact NDr].
+        -- intros y H1 [E|H2]; apply removez_In in H1; [exact (proj2 H1 (eq_sym E))|exact (Dfr y (proj1 H1) H2)].
+      * intros y. unfold own. rewrite !in_app_iff, removez_In. simpl. destruct (Z.eq_dec y b) as [->|N]; intuition (auto; congruence).
+      * intros y [<-|Hy]; rewrite FC.
+        -- rewrite Z.eqb_refl. lia.
+        -- destruct (Z.eqb_spec y b) as [->|N]; [lia|apply P3; exact Hy].
+      * intros y Hy. apply removez_In in Hy. rewrite FC. destruct (Z.eqb_spec y b); [tauto|]. apply P4. tauto.
+      * discriminate.
+    + unfold relist, own. cbn [lfull lfree]. intros y Hy Hy'. rewrite Gp in Hy'. apply (d y); [|exact Hy'].
+      unfold own. rewrite in_app_iff in *. rewrite removez_In in Hy. simpl in Hy. destruct Hy as [[H _]|[<-|H]]; auto.
+  - unfold Jq. rewrite !Gp. fold x. split; [exact Gw1|]. split; [|split; [exact Ow1|exact d]].
+    assert (x = relist x (lfull x) (lfree x)) as Ex by (destruct x; reflexivity). rewrite Ex.
+    apply Pl_relist2 with (w := w) (hx := Some (b, j)); [exact P|exact P1|intros; reflexivity|reflexivity|reflexivity| | |exact P5|exact OK|exact NH].
+    + intros y Hy. rewrite FC. destruct (Z.eqb_spec y b) as [->|N]; [lia|apply P3; exact Hy].
+    + intros y Hy. rewrite FC. destruct (Z.eqb_spec y b) as [->|N]; [specialize (P4 b Hy); lia|apply P4; exact Hy].
+Qed.
+
+(* pvDeleteBuffer of a completely free buffer b of pool q (565/568): the remaining buffers are lf ++ lr *)
+Lemma drop_gen q w b lf lr :
+  Jq q None w -> In b (own (getp w q)) -> fc w b = C ->
+  NoDup (lf ++ lr) -> (forall y, In y (lf ++ lr) <-> In y (own (getp w q)) /\ y <> b) ->
+  (forall y, In y lr -> In y (lfree (getp w q))) -> (forall y, In y lf -> In y (lfull (getp w q))) -> lr <> [] ->
+  Jq q None (add_returned (set_bytes (set_lists w q lf lr) b 0 0) b).
+Proof.
+  intros Jw Ob Fb ND Iff Sr Sf Nr. pose proof (full_count_no_live q w b Jw Ob Fb) as NoLive.
+  destruct Jw as ((g1 & g2 & g3) & P & O & d). pose proof P as (P1 & P2 & P3 & P4 & P5 & P6 & P7 & P8 & P9).
+  set (x := getp w q) in *. set (w' := add_returned (set_bytes (set_lists w q lf lr) b 0 0) b).
+  assert (getp w' q = relist x lf lr) as Gq by (unfold w', set_lists, relist; fold x; destruct q; reflexivity).
+  assert (getp w' (negb q) = getp w (negb q)) as Go by (unfold w', set_lists; destruct q; reflexivity).
+  assert (forall y, fc w' y = if y =? b then 0 else fc w y) as FC.
+  { intros y. unfold w', set_lists. destruct q; simpl; unfold upd; reflexivity. }
+  assert (forall y, y <> b -> chain_of w' y = chain_of w y) as CH.
+  { intros y N. apply chain_of_ext.
+    - rewrite FC. destruct (Z.eqb_spec y b); [congruence|reflexivity].
+    - unfold w', set_lists. destruct q; simpl; unfold upd; destruct (Z.eqb_spec y b); congruence.
+    - intros k. unfold w', set_lists. destruct q; reflexivity. }
+  assert (chain_of w' b = []) as CHb by (unfold chain_of; rewrite FC, Z.eqb_refl; reflexivity).
+  assert (fresh w' = fresh w /\ returned w' = b :: returned w) as (Ef & Er) by (unfold w', set_lists; destruct q; split; reflexivity).
+  destruct (P2 b Ob) as (Bfresh & Bnr).
+  unfold Jq. rewrite Gq, Go. split; [|split; [|split]].
+  - split; [|split; [|rewrite Ef; exact g3]].
+    + intros y. destruct (Z.eq_dec y b) as [->|N].
+      * rewrite FC, Z.eqb_refl, CHb. split; [lia|]. split; [constructor|intros z []].
+      * rewrite FC, (CH y N). destruct (Z.eqb_spec y b); [congruence|]. apply g1.
+    + intros y Hy. rewrite Er in Hy. rewrite Ef. destruct Hy as [<-|Hy]; [lia|apply g2; exact Hy].
+  - unfold Pl, relist. unfold own at 1 2. unfold lb at 1 2 3. cbn [lfull lfree cache acount live]. rewrite Ef, Er.
+    split; [exact ND|]. split; [|split; [|split; [|split; [|split; [exact P6|split; [|split; [exact P8|exact P9]]]]]]].
+    + intros y Hy. apply Iff in Hy. destruct Hy as (Hy & N). destruct (P2 y Hy) as (a & c). split; [exact a|].
+      intros [E|H]; [congruence|exact (c H)].
+    + intros y Hy. assert (y <> b) as N by (apply (Iff y); apply in_or_app; auto). rewrite FC. destruct (Z.eqb_spec y b); [congruence|].
+      apply P3. apply Sr. exact Hy.
+    + intros y Hy. assert (y <> b) as N by (apply (Iff y); apply in_or_app; auto). rewrite FC. destruct (Z.eqb_spec y b); [congruence|].
+      apply P4. apply Sf. exact Hy.
+    + intros E. congruence.
+    + intros bk [H|H]; [|discriminate]. destruct (P7 bk (or_introl H)) as (a1 & a2 & a3).
+      assert (fst bk <> b) as N by (apply NoLive; left; exact H).
+      split; [exact a1|]. split; [rewrite (CH _ N); exact a2|]. unfold own at 1. cbn [lfull lfree]. apply Iff. split; assumption.
+  - apply Pl_frame with (w := w); [exact O| |lia|].
+    + intros y Hy. assert (y <> b) as N by (intro; subst; exact (d b Ob Hy)).
+      rewrite FC. destruct (Z.eqb_spec y b); [congruence|]. split; [reflexivity|apply CH; exact N].
+    + intros y Hy. rewrite Er. destruct O as (_ & O2 & _). intros [E|H]; [subst; exact (d y Ob Hy)|exact (proj2 (O2 y Hy) H)].
+  - unfold relist, own at 1. cbn [lfull lfree]. intros y Hy Hy'. apply Iff in Hy. exact (d y (proj1 Hy) Hy').
+Qed.
+
+Lemma pushmove_own q w bk y :
+  In (fst bk) (own (getp w q)) ->
+  (In y (own (getp (if fc (push w bk) (fst bk) =? 1 then move_head (push w bk) q (fst bk) else push w bk) q)) <-> In y (own (getp w q))).
+Proof.
+  intros Ob. destruct (fc (push w bk) (fst bk) =? 1).
+  - unfold move_head, set_lists. cbv zeta. rewrite getp_setp_eq, getp_push. unfold own. cbn [lfull lfree].
+    rewrite !in_app_iff, removez_In. simpl. unfold own in Ob. rewrite in_app_iff in Ob.
+    destruct (Z.eq_dec y (fst bk)) as [->|N]; intuition (auto; congruence).
+  - rewrite getp_push. reflexivity.
+Qed.
+
+(* pvDeleteBlock 547-570 *)
+Lemma pvDeleteBlock_J q w bk : Jq q (Some bk) w -> Jq q None (pvDeleteBlock C w q bk).
+Proof.
+  intros Jw. pose proof (pushmove_J q w bk Jw) as J2.
+  assert (In (fst bk) (own (getp w q))) as Ob0.
+  { destruct Jw as (_ & (_ & _ & _ & _ & _ & _ & P7 & _) & _). destruct (P7 bk (or_intror eq_refl)) as (_ & _ & H). exact H. }
+  pose proof (fun y => pushmove_own q w bk y Ob0) as OwnIff.
+  unfold pvDeleteBlock. cbv zeta.
+  set (w2 := if fc (push w bk) (fst bk) =? 1 then move_head (push w bk) q (fst bk) else push w bk) in *.
+  set (b := fst bk) in *. clearbody w2.
+  assert (In b (own (getp w2 q))) as Ob by (apply OwnIff; exact Ob0).
+  destruct (Z.eqb_spec (fc w2 b) C) as [Fc|_]; [|exact J2].
+  pose proof J2 as (_ & (P1 & P2 & P3 & P4 & P5 & _) & _).
+  set (x := getp w2 q) in *.
+  assert (In b (lfree x)) as Hbr.
+  { unfold own in Ob. apply in_app_or in Ob. destruct Ob as [H|H]; [specialize (P4 b H); lia|exact H]. }
+  unfold own in P1. pose proof P1 as P1'. apply NoDup_app_iff in P1'. destruct P1' as (NDf & NDr & Dfr).
+  destruct (lfree x) as [|h t] eqn:El; [destruct Hbr|]. cbn [hd0 tl0].
+  destruct (Z.eqb_spec b h) as [Ebh|Nbh].
+  - destruct (Z.eqb_spec (hd0 t) 0) as [_|Nt]; [exact J2|].
+    unfold drop_head. fold x. rewrite El. cbn [tl0]. subst h.
+    apply drop_gen; auto.
+    + fold x. apply NoDup_remove_1 in P1. exact P1.
+    + fold x. intros y. unfold own. rewrite El. pose proof (NoDup_remove_2 _ _ _ P1) as Nb.
+      rewrite !in_app_iff in *. simpl. split.
+      * intros H. split; [tauto|]. intro; subst. tauto.
+      * intros ([H|[H|H]] & N); auto. congruence.
+    + fold x. rewrite El. intros y Hy. right. exact Hy.
+    + destruct t; [simpl in Nt; congruence|discriminate].
+  - unfold drop_mid. fold x. rewrite El.
+    apply drop_gen; auto.
+    + fold x. apply NoDup_app_iff. split; [apply removez_NoDup; exact NDf|]. split; [apply removez_NoDup; exact NDr|].
+      intros y H1 H2. apply removez_In in H1. apply removez_In in H2. exact (Dfr y (proj1 H1) (proj1 H2)).
+    + fold x. intros y. unfold own. rewrite El. rewrite !in_app_iff, !removez_In. tauto.
+    + fold x. rewrite El. intros y Hy. apply removez_In in Hy. tauto.
+    + fold x. intros y Hy. apply removez_In in Hy. tauto.
+    + cbn [removez]. destruct (Z.eqb_spec h b); [congruence|discriminate].
+Qed.
+
+(* ---------- composite operations ---------- *)
+Lemma cache_of_caches w1 w2 p : PoolConcProofs.caches w1 = PoolConcProofs.caches w2 -> cache (getp w1 p) = cache (getp w2 p).
+Proof. unfold PoolConcProofs.caches. intros E. apply pair_equal_spec in E. destruct E. destruct p; assumption. Qed.
+
+Lemma cache_set_cache w p c : cache (getp (set_cache w p c) p) = c.
+Proof. unfold set_cache. rewrite getp_setp_eq. reflexivity. Qed.
+
+Lemma flush_loop_J q : forall l w, Jq q None w -> cache (getp w q) = l -> Jq q None (flush_loop C l w q).
+Proof.
+  induction l as [|bk rest IH]; intros w Jw E; [exact Jw|]. cbn [flush_loop]. apply IH.
+  - apply pvDeleteBlock_J. apply cache_pop_J with (bk := bk) (rest := rest); assumption.
+  - rewrite (cache_of_caches _ _ q (PoolConcProofs.pvDeleteBlock_caches C (set_cache w q rest) q bk)). apply cache_set_cache.
+Qed.
+Lemma flush_J q w : Jq q None w -> Jq q None (flush C w q).
+Proof. intros Jw. unfold flush. apply flush_loop_J; [exact Jw|reflexivity]. Qed.
+
+(* the live lists are not touched by list / chain steps *)
+Definition lives (w : cworld) : list blk * list blk := (live (cp0 w), live (cp1 w)).
+Lemma lives_setp_same w p x : live x = live (getp w p) -> lives (setp w p x) = lives w.
+Proof. destruct p; unfold lives; simpl; intros ->; reflexivity. Qed.
+Lemma set_lists_lives w p a b : lives (set_lists w p a b) = lives w.
+Proof. unfold set_lists. apply lives_setp_same. reflexivity. Qed.
+Lemma set_cache_lives w p c : lives (set_cache w p c) = lives w.
+Proof. unfold set_cache. apply lives_setp_same. reflexivity. Qed.
+Lemma pvDeleteBlock_lives w p bk : lives (pvDeleteBlock C w p bk) = lives w.
+Proof.
+  unfold pvDeleteBlock. cbv zeta. set (w1 := push w bk).
+  set (w2 := if fc w1 (fst bk) =? 1 then move_head w1 p (fst bk) else w1).
+  assert (lives w2 = lives w) as E.
+  { unfold w2, move_head. destruct (fc w1 (fst bk) =? 1); [rewrite set_lists_lives|]; reflexivity. }
+  assert (forall b, lives (drop_head w2 p b) = lives w2) as DH.
+  { intros b. unfold drop_head. change (lives (set_lists w2 p (lfull (getp w2 p)) (tl0 (lfree (getp w2 p)))) = lives w2). apply set_lists_lives. }
+  assert (forall b, lives (drop_mid w2 p b) = lives w2) as DM.
+  { intros b. unfold drop_mid. change (lives (set_lists w2 p (removez b (lfull (getp w2 p))) (removez b (lfree (getp w2 p)))) = lives w2). apply set_lists_lives. }
+  repeat match goal with |- context [if ?c then _ else _] => destruct c end; rewrite ?DH, ?DM; exact E.
+Qed.
+Lemma flush_loop_lives p : forall l w, lives (flush_loop C l w p) = lives w.
+Proof. induction l as [|bk rest IH]; intros w; [reflexivity|]. cbn [flush_loop]. rewrite IH, pvDeleteBlock_lives. apply set_cache_lives. Qed.
+Lemma live_of_lives w1 w2 p : lives w1 = lives w2 -> live (getp w1 p) = live (getp w2 p).
+Proof. unfold lives. intros E. apply pair_equal_spec in E. destruct E. destruct p; assumption. Qed.
+
+Variable CF : Z.
+Variable uc : bool.
+
+(* Allocate 285-306 *)
+Lemma Allocate_J q w : Jq q None w -> Jq q None (fst (Allocate C uc w q)).
+Proof.
+  intros Jw. unfold Allocate.
+  assert (Jq q None (fst (let '(w0, bk) := pvNewBlock C w q in (add_live w0 q bk, bk)))) as ViaNew.
+  { pose proof (pvNewBlock_J q w Jw) as JN. destruct (pvNewBlock C w q) as [w0 bk]. cbn [fst snd] in *. apply add_live_J. exact JN. }
+  destruct (cache (getp w q)) as [|bk rest] eqn:E; [exact ViaNew|]. destruct uc; [|exact ViaNew].
+  cbn [fst]. apply add_live_J. apply cache_pop_J with (rest := rest); assumption.
+Qed.
+
+(* Deallocate 308-325 of a block that is live in pool q *)
+Lemma Deallocate_J q w bk : Jq q None w -> In bk (live (getp w q)) -> Jq q None (Deallocate C CF uc w q bk).
+Proof.
+  intros Jw Hl. unfold Deallocate. destruct uc.
+  - cbv zeta. set (w0 := if CF <=? lenz (cache (getp w q)) then flush C w q else w).
+    assert (Jq q None w0 /\ In bk (live (getp w0 q))) as (J0 & H0).
+    { unfold w0. destruct (CF <=? lenz (cache (getp w q))); [|split; assumption]. split; [apply flush_J; exact Jw|].
+      unfold flush. rewrite (live_of_lives _ _ q (flush_loop_lives q _ w)). exact Hl. }
+    clearbody w0. pose proof (remove_live_J q bk w0 J0 H0) as J1.
+    assert (cache (getp (remove_live w0 q bk) q) = cache (getp w0 q)) as Ec by (unfold remove_live; rewrite getp_setp_eq; reflexivity).
+    apply cache_push_J. exact J1.
+  - apply pvDeleteBlock_J. apply remove_live_J; assumption.
+Qed.
+
+Lemma rev0_spec {A} (l acc : list A) : rev0 l acc = rev l ++ acc.
+Proof. revert acc. induction l as [|a t IH]; intros acc; simpl; [reflexivity|]. rewrite IH, <- app_assoc. reflexivity. Qed.
+
+Lemma perm_merge (a b c d : list Z) : Permutation ((a ++ b) ++ (c ++ d)) ((a ++ rev c) ++ (b ++ d)).
+Proof.
+  rewrite <- !app_assoc. apply Permutation_app_head.
+  transitivity (c ++ b ++ d).
+  - rewrite !app_assoc. apply Permutation_app_tail. apply Permutation_app_comm.
+  - apply Permutation_app_tail. apply Permutation_rev.
+Qed.
+
+(* a pool record with no buffers has no live and no cached block *)
+Lemma Pl_no_buffers w x : Pl w x None -> own x = [] -> live x = [] /\ cache x = [] /\ acount x = 0.
+Proof.
+  intros (P1 & P2 & P3 & P4 & P5 & P6 & P7 & P8 & P9) E.
+  assert (lb x = []) as El.
+  { destruct (lb x) as [|bk t] eqn:El; [reflexivity|]. destruct (P7 bk) as (_ & _ & H); [left; left; reflexivity|]. rewrite E in H. destruct H. }
+  unfold lb in El. apply app_eq_nil in El. destruct El as (E1 & E2). rewrite P9, E1. auto.
+Qed.
+
+(* the record of the destination pool after MergeFrom: any duplicate-free arrangement lf / lr of the two full parts / free
+   parts, the destination's cache, the sum of the counters, the union of the live blocks *)
+Lemma merge_Pl w x y lf lr :
+  Pl w x None -> Pl w y None -> (forall b, In b (own x) -> In b (own y) -> False) -> cache y = [] ->
+  NoDup (lf ++ lr) ->
+  (forall b, In b lf <-> In b (lfull x) \/ In b (lfull y)) -> (forall b, In b lr <-> In b (lfree x) \/ In b (lfree y)) ->
+  Pl w (mkCP lf lr (cache x) (acount x + acount y) (live x ++ live y)) None.
+Proof.
+  intros (P1 & P2 & P3 & P4 & P5 & P6 & P7 & P8 & P9) (Q1 & Q2 & Q3 & Q4 & Q5 & Q6 & Q7 & Q8 & Q9) D Ec ND If Ir.
+  assert (forall b, In b (lf ++ lr) <-> In b (own x) \/ In b (own y)) as Io.
+  { intros b. unfold own. rewrite !in_app_iff, If, Ir. tauto. }
+  unfold Pl. unfold own at 1 2. unfold lb at 1 2. cbn [lfull lfree cache acount live].
+  split; [exact ND|]. split; [intros b Hb; apply Io in Hb; destruct Hb; auto|].
+  split; [intros b Hb; apply Ir in Hb; destruct Hb; auto|]. split; [intros b Hb; apply If in Hb; destruct Hb; auto|].
+  split.
+  { intros E. destruct lf as [|a t]; [reflexivity|]. exfalso. assert (In a (lfull x) \/ In a (lfull y)) as [H|H] by (apply If; left; reflexivity).
+    - destruct (lfree x) as [|c u] eqn:Ex; [rewrite (P5 eq_refl) in H; destruct H|]. assert (In c lr) as Hc by (apply Ir; left; left; reflexivity). rewrite E in Hc. destruct Hc.
+    - destruct (lfree y) as [|c u] eqn:Ey; [rewrite (Q5 eq_refl) in H; destruct H|]. assert (In c lr) as Hc by (apply Ir; right; left; reflexivity). rewrite E in Hc. destruct Hc. }
+  unfold lb in *. rewrite Ec in *. rewrite app_nil_r in Q6.
+  assert (forall bk, In bk (live x ++ cache x) -> In bk (live y) -> False) as Cross.
+  { intros bk H1 H2. destruct (P7 bk (or_introl H1)) as (_ & _ & O1). destruct (Q7 bk) as (_ & _ & O2); [left; rewrite app_nil_r; exact H2|]. exact (D _ O1 O2). }
+  split.
+  { apply NoDup_app_iff in P6. destruct P6 as (N1 & N2 & D12). rewrite <- app_assoc. apply NoDup_app_iff. split; [exact N1|]. split.
+    - apply NoDup_app_iff. split; [exact Q6|]. split; [exact N2|]. intros bk H1 H2. apply (Cross bk); [apply in_or_app; auto|exact H1].
+    - intros bk H1 H2. apply in_app_or in H2. destruct H2 as [H2|H2]; [apply (Cross bk); [apply in_or_app; auto|exact H2]|exact (D12 bk H1 H2)]. }
+  split; [|split; [intros; discriminate|rewrite lenz_app, P9, Q9; reflexivity]].
+  intros bk [H|H]; [|discriminate]. unfold okblk, own at 1. cbn [lfull lfree].
+  rewrite <- app_assoc in H. apply in_app_or in H. destruct H as [H|H].
+  - destruct (P7 bk) as (a1 & a2 & a3); [left; apply in_or_app; auto|]. split; [exact a1|]. split; [exact a2|]. apply Io. auto.
+  - apply in_app_or in H. destruct H as [H|H].
+    + destruct (Q7 bk) as (a1 & a2 & a3); [left; rewrite app_nil_r; exact H|]. split; [exact a1|]. split; [exact a2|]. apply Io. auto.
+    + destruct (P7 bk) as (a1 & a2 & a3); [left; apply in_or_app; auto|]. split; [exact a1|]. split; [exact a2|]. apply Io. auto.
+Qed.
+
+(* assembling a world in which BOTH pool records were replaced (same maps) *)
+Lemma assemble2 d w x' y' :
+  G w -> Pl w x' None -> Pl w y' None -> (forall b, In b (own x') -> In b (own y') -> False) ->
+  Jq d None (setp (setp w d x') (negb d) y').
+Proof.
+  intros g Px Py D. pose proof (setp_same_maps w d x') as SM1. pose proof (setp_same_maps (setp w d x') (negb d) y') as SM2.
+  assert (same_maps (setp (setp w d x') (negb d) y') w) as SM.
+  { destruct SM1 as (a1 & a2 & a3 & a4 & a5), SM2 as (b1 & b2 & b3 & b4 & b5). unfold same_maps. rewrite b1, b2, b3, b4, b5. repeat split; assumption. }
+  unfold Jq. rewrite getp_setp_eq. rewrite (getp_setp_neq _ d (negb d)) by (destruct d; discriminate). rewrite getp_setp_eq.
+  split; [exact (G_same_maps _ _ SM g)|]. split; [exact (Pl_same_maps _ _ _ _ SM Px)|]. split; [exact (Pl_same_maps _ _ _ _ SM Py)|exact D].
+Qed.
+
+(* MergeFrom 386-435 *)
+Lemma MergeFrom_J d w : (uc = false -> cache (getp w (negb d)) = []) -> Jq d None w -> Jq d None (MergeFrom C uc w d).
+Proof.
+  intros Hnc Jw. unfold MergeFrom. cbv zeta.
+  set (w1 := if uc then flush C w (negb d) else w).
+  assert (Jq d None w1 /\ cache (getp w1 (negb d)) = []) as (J1 & Ec).
+  { unfold w1. destruct uc.
+    - split; [apply Jq_sym; apply flush_J; apply Jq_sym in Jw; exact Jw|apply PoolConcProofs.flush_cache_empty].
+    - split; [exact Jw|apply Hnc; reflexivity]. }
+  clearbody w1. destruct J1 as (g & Px & Py & D). set (x := getp w1 d) in *. set (y := getp w1 (negb d)) in *.
+  pose proof Px as (P1 & P2 & P3 & P4 & P5 & _). pose proof Py as (Q1 & Q2 & Q3 & Q4 & Q5 & _).
+  destruct (lfree y) as [|hy ty] eqn:Ey.
+  - (* the source has no buffers *)
+    assert (lfull y = []) as Efy by (apply Q5; reflexivity).
+    assert (own y = []) as Eoy by (unfold own; rewrite Efy, Ey; reflexivity).
+    destruct (Pl_no_buffers w1 y Py Eoy) as (Ely & _ & Eay).
+    rewrite Efy, Ec. apply assemble2; [exact g| |apply Pl_empty|intros b _ []].
+    apply merge_Pl; auto.
+    + intros b. rewrite Efy. simpl. tauto.
+    + intros b. rewrite Ey. simpl. tauto.
+  - destruct (lfree x) as [|hx tx] eqn:Ex.
+    + (* the destination has no buffers: it takes over the source's list *)
+      assert (lfull x = []) as Efx by (apply P5; reflexivity).
+      assert (own x = []) as Eox by (unfold own; rewrite Efx, Ex; reflexivity).
+      destruct (Pl_no_buffers w1 x Px Eox) as (Elx & Ecx & Eax).
+      rewrite Ec. apply assemble2; [exact g| |apply Pl_empty|intros b _ []].
+      cbn [lfull lfree cache acount live].
+      apply merge_Pl; auto.
+      * unfold own in Q1. rewrite Ey in Q1. exact Q1.
+      * intros b. rewrite Efx. simpl. tauto.
+      * intros b. rewrite Ex, Ey. simpl. tauto.
+    + rewrite Ec. apply assemble2; [exact g| |apply Pl_empty|intros b _ []].
+      cbn [lfull lfree cache acount live]. rewrite rev0_spec, app_nil_r.
+      apply merge_Pl; auto.
+      * unfold own in P1, Q1. rewrite Ex in P1. rewrite Ey in Q1.
+        apply (Permutation_NoDup (l := (lfull x ++ hx :: tx) ++ (lfull y ++ hy :: ty))).
+        -- apply perm_merge.
+        -- apply NoDup_app_iff. split; [exact P1|]. split; [exact Q1|]. intros b H1 H2. apply (D b); unfold own; [rewrite Ex|rewrite Ey]; assumption.
+      * intros b. rewrite in_app_iff, <- in_rev. tauto.
+      * intros b. rewrite Ex, Ey, in_app_iff. tauto.
+Qed.
+
+(* ---------- all histories ---------- *)
+Lemma memb_In bk l : memb bk l = true -> In bk l.
+Proof.
+  induction l as [|a t IH]; simpl; [discriminate|]. destruct (blk_eqb_spec a bk) as [->|N]; simpl; [auto|]. intros H. right. auto.
+Qed.
+
+(* operations of a history; a Deallocate of a block that is not live in that pool (a use the pool's contract forbids) is ignored *)
+Inductive gop := GAlloc (p : bool) | GFree (p : bool) (bk : blk) | GMerge (d : bool).
+Definition gstep (w : cworld) (o : gop) : cworld :=
+  match o with
+  | GAlloc p => fst (Allocate C uc w p)
+  | GFree p bk => if memb bk (live (getp w p)) then Deallocate C CF uc w p bk else w
+  | GMerge d => MergeFrom C uc w d
+  end.
+Definition grun (ops : list gop) : cworld := foldl gstep ops empty_world.
+
+Definition nocache (w : cworld) : Prop := uc = false -> PoolConcProofs.caches w = ([], []).
+
+Lemma gstep_nocache w o : nocache w -> nocache (gstep w o).
+Proof.
+  intros H U. specialize (H U). destruct o as [p|p bk|d]; simpl.
+  - unfold Allocate. rewrite U.
+    assert (PoolConcProofs.caches (fst (let '(w0, bk) := pvNewBlock C w p in (add_live w0 p bk, bk))) = ([], [])) as V.
+    { pose proof (PoolConcProofs.pvNewBlock_caches C w p) as K. destruct (pvNewBlock C w p) as [w0 bk]. cbn [fst] in *.
+      rewrite PoolConcProofs.add_live_caches, K. exact H. }
+    destruct (cache (getp w p)); exact V.
+  - destruct (memb bk (live (getp w p))); [|exact H]. unfold Deallocate. rewrite U.
+    rewrite PoolConcProofs.pvDeleteBlock_caches, PoolConcProofs.remove_live_caches. exact H.
+  - unfold MergeFrom. rewrite U. cbv zeta. unfold PoolConcProofs.caches in *. apply pair_equal_spec in H. destruct H as [H0 H1].
+    destruct (lfree (getp w (negb d))); [|destruct (lfree (getp w d))]; destruct d; simpl in *; rewrite ?H0, ?H1; reflexivity.
+Qed.
+
+Lemma gstep_J w o : J w -> nocache w -> J (gstep w o).
+Proof.
+  intros Jw Nc. destruct o as [p|p bk|d]; simpl.
+  - apply (J_any p). apply Allocate_J. apply (J_any p). exact Jw.
+  - destruct (memb bk (live (getp w p))) eqn:M; [|exact Jw]. apply (J_any p). apply Deallocate_J; [apply (J_any p); exact Jw|apply memb_In; exact M].
+  - apply (J_any d). apply MergeFrom_J; [|apply (J_any d); exact Jw].
+    intros U. specialize (Nc U). unfold PoolConcProofs.caches in Nc. apply pair_equal_spec in Nc. destruct Nc. destruct d; assumption.
+Qed.
+
+(* THE INVARIANT HOLDS AFTER EVERY HISTORY of Allocate / Deallocate (of live blocks) / MergeFrom on both pools *)
+Theorem J_all_histories ops : J (grun ops) /\ nocache (grun ops).
+Proof.
+  unfold grun. assert (J empty_world /\ nocache empty_world) as B by (split; [apply J_empty|intros _; reflexivity]).
+  revert B. generalize empty_world. induction ops as [|o t IH]; intros w (Jw & Nw); simpl; [split; assumption|].
+  apply IH. split; [apply gstep_J; assumption|apply gstep_nocache; assumption].
+Qed.
+
+(* live lists under Allocate *)
+Lemma attach_new_lives w p : lives (attach_new C w p) = lives w.
+Proof. unfold attach_new, new_buffer. rewrite set_lists_lives. reflexivity. Qed.
+Lemma take_lives w p : lives (fst (take w p)) = lives w.
+Proof. unfold take. cbv zeta. simpl fst. destruct (_ =? 0); [rewrite set_lists_lives|]; reflexivity. Qed.
+Lemma pvNewBlock_lives w p : lives (fst (pvNewBlock C w p)) = lives w.
+Proof.
+  unfold pvNewBlock. cbv zeta. rewrite take_lives.
+  match goal with |- lives (if ?c then _ else _) = _ => destruct c end; [rewrite attach_new_lives|];
+  (destruct (lfree (getp w p)); [apply attach_new_lives|reflexivity]).
+Qed.
+Lemma Allocate_live w p :
+  live (getp (fst (Allocate C uc w p)) p) = snd (Allocate C uc w p) :: live (getp w p) /\
+  live (getp (fst (Allocate C uc w p)) (negb p)) = live (getp w (negb p)).
+Proof.
+  unfold Allocate.
+  assert (forall w0 bk, lives w0 = lives w ->
+            live (getp (add_live w0 p bk) p) = bk :: live (getp w p) /\ live (getp (add_live w0 p bk) (negb p)) = live (getp w (negb p))) as K.
+  { intros w0 bk E. unfold add_live. rewrite getp_setp_eq. rewrite getp_setp_neq by (destruct p; discriminate). cbn [live].
+    rewrite (live_of_lives _ _ p E), (live_of_lives _ _ (negb p) E). split; reflexivity. }
+  assert (let r := (let '(w0, bk) := pvNewBlock C w p in (add_live w0 p bk, bk)) in
+          live (getp (fst r) p) = snd r :: live (getp w p) /\ live (getp (fst r) (negb p)) = live (getp w (negb p))) as V.
+  { pose proof (pvNewBlock_lives w p) as L. destruct (pvNewBlock C w p) as [w0 bk]. cbn [fst snd] in *. apply K. exact L. }
+  destruct (cache (getp w p)) as [|bk rest]; [exact V|]. destruct uc; [|exact V]. cbn [fst snd]. apply K. apply set_cache_lives.
+Qed.
+
+(* (a1) NO BLOCK IS EVER HANDED OUT TWICE: after every history, the block the next Allocate returns is live in neither pool *)
+Theorem no_double_hand_out ops p :
+  let w := grun ops in let bk := snd (Allocate C uc w p) in
+  ~ In bk (live (getp w p)) /\ ~ In bk (live (getp w (negb p))).
+Proof.
+  cbv zeta. destruct (J_all_histories ops) as (Jw & _). set (w := grun ops) in *.
+  pose proof (Allocate_J p w (proj1 (J_any p w) Jw)) as (_ & Pp & Po & D).
+  destruct (Allocate_live w p) as (L1 & L2). set (bk := snd (Allocate C uc w p)) in *. set (w' := fst (Allocate C uc w p)) in *.
+  destruct Pp as (_ & _ & _ & _ & _ & P6 & P7 & _). destruct Po as (_ & _ & _ & _ & _ & _ & O7 & _).
+  unfold lb in *. rewrite L1 in P6, P7. rewrite L2 in O7. split.
+  - intro H. simpl in P6. inversion P6 as [|? ? N _]; subst. apply N. apply in_or_app. left. exact H.
+  - intro H. destruct (P7 bk) as (_ & _ & O1); [left; left; reflexivity|]. destruct (O7 bk) as (_ & _ & O2); [left; apply in_or_app; left; exact H|].
+    exact (D _ O1 O2).
+Qed.
+
+(* (a2) A BUFFER IS NEVER RETURNED TO THE MANAGER WHILE ONE OF ITS BLOCKS IS LIVE (or cached): after every history, no live or
+   cached block of either pool belongs to a returned buffer; returned buffer ids are never reused *)
+Theorem never_returned_while_live ops b :
+  let w := grun ops in In b (returned w) ->
+  b < fresh w /\ forall p bk, In bk (live (getp w p) ++ cache (getp w p)) -> fst bk <> b.
+Proof.
+  cbv zeta. intros Hr. destruct (J_all_histories ops) as (Jw & _). set (w := grun ops) in *.
+  pose proof Jw as ((_ & g2 & _) & _). split; [apply g2; exact Hr|].
+  intros p bk Hb E. apply (J_any p) in Jw. destruct Jw as (_ & (_ & P2 & _ & _ & _ & _ & P7 & _) & _).
+  destruct (P7 bk (or_introl Hb)) as (_ & _ & O). rewrite E in O. exact (proj2 (P2 b O) Hr).
+Qed.
+
+(* allocCount = number of live blocks, live blocks pairwise different, after every history *)
+Theorem count_and_distinct ops p :
+  let w := grun ops in acount (getp w p) = lenz (live (getp w p)) /\ NoDup (live (getp w p)).
+Proof.
+  cbv zeta. destruct (J_all_histories ops) as (Jw & _). apply (J_any p) in Jw.
+  destruct Jw as (_ & (_ & _ & _ & _ & _ & P6 & _ & _ & P9) & _). split; [exact P9|].
+  unfold lb in P6. apply NoDup_app_iff in P6. tauto.
+Qed.
 End Inv.
